@@ -333,3 +333,45 @@ Definition rule_caps (h : header) (defs : PM.t dinfo) (ps : list pinstr) : list 
   let exts := declared_extensions ps in
   flat (fun p => flat (check_req h caps exts p)
                       (reqs_of defs p ++ (if pi_op p =? 17 then req_capability_decl (nthz 0 (pi_args p)) else []))) ps.
+
+(* ---- literal operands are enumerants / masks of the specification ---- *)
+
+Definition known_storage_class (sc : Z) : bool :=
+  ((0 <=? sc) && (sc <=? 12)) || (sc =? 5328) || (sc =? 5329) || (sc =? 5338) || (sc =? 5339) || (sc =? 5342) ||
+  (sc =? 5343) || (sc =? 5349) || (sc =? 5402).
+Definition in_table (v : Z) (t : list (string * Z)) : bool := existsb (fun x => snd x =? v) t.
+
+Definition rule_enumerants_one (p : pinstr) : list violation :=
+  if negb (pi_ok p) then [] else
+  let op := pi_op p in
+  let a := pi_args p in
+  let idx := pi_idx p in
+  let bad (what : string) (v : Z) := [V ("invalid_enumerant:" ++ what)%string idx v op] in
+  if (op =? 32) || (op =? 59) then (if known_storage_class (nthz 0 a) then [] else bad "storage_class" (nthz 0 a))
+  else if op =? 15 then (if in_table (nthz 0 a) execution_models || (nthz 0 a =? 5267) || (nthz 0 a =? 5268) ||
+                             ((5313 <=? nthz 0 a) && (nthz 0 a <=? 5318)) then [] else bad "execution_model" (nthz 0 a))
+  else if op =? 14 then
+    (if in_table (nthz 0 a) addressing_models then [] else bad "addressing_model" (nthz 0 a)) ++
+    (if in_table (nthz 1 a) memory_models then [] else bad "memory_model" (nthz 1 a))
+  else if op =? 25 then
+    (if (0 <=? nthz 1 a) && (nthz 1 a <=? 6) then [] else bad "dim" (nthz 1 a)) ++
+    (if (0 <=? nthz 2 a) && (nthz 2 a <=? 2) then [] else bad "image_depth" (nthz 2 a)) ++
+    (if (0 <=? nthz 3 a) && (nthz 3 a <=? 1) then [] else bad "image_arrayed" (nthz 3 a)) ++
+    (if (0 <=? nthz 4 a) && (nthz 4 a <=? 1) then [] else bad "image_ms" (nthz 4 a)) ++
+    (if (0 <=? nthz 5 a) && (nthz 5 a <=? 2) then [] else bad "image_sampled" (nthz 5 a)) ++
+    (if in_table (nthz 6 a) image_formats then [] else bad "image_format" (nthz 6 a))
+  else if op =? 54 then (if Z.land (nthz 0 a) (Z.lnot 15) =? 0 then [] else bad "function_control" (nthz 0 a))
+  else if op =? 247 then (if Z.land (nthz 1 a) (Z.lnot 3) =? 0 then [] else bad "selection_control" (nthz 1 a))
+  else if op =? 246 then (if Z.land (nthz 2 a) (Z.lnot 33489407) =? 0 then [] else bad "loop_control" (nthz 2 a))
+  else if op =? 21 then
+    (if memz (nthz 0 a) [8; 16; 32; 64] then [] else bad "int_width" (nthz 0 a)) ++
+    (if (nthz 1 a =? 0) || (nthz 1 a =? 1) then [] else bad "int_signedness" (nthz 1 a))
+  else if op =? 22 then (if memz (nthz 0 a) [16; 32; 64] then [] else bad "float_width" (nthz 0 a))
+  else if (op =? 23) then (if (2 <=? nthz 1 a) && (nthz 1 a <=? 4) then [] else bad "vector_size" (nthz 1 a))
+  else if (op =? 24) then (if (2 <=? nthz 1 a) && (nthz 1 a <=? 4) then [] else bad "matrix_columns" (nthz 1 a))
+  else if op =? 71 then
+    (if nthz 1 a =? 11 then (if in_table (nthz 2 a) builtins || (5000 <? nthz 2 a) then [] else bad "builtin" (nthz 2 a)) else [])
+  else if (349 <=? op) && (op <=? 364) then (if (0 <=? nthz 1 a) && (nthz 1 a <=? 3) then [] else bad "group_operation" (nthz 1 a))
+  else [].
+
+Definition rule_enumerants (ps : list pinstr) : list violation := flat rule_enumerants_one ps.
